@@ -287,8 +287,9 @@ theorem step_inv (cfg : Cfg) (s : State) (op : Op) (hinv : Inv cfg s) : Inv cfg 
       · rename_i hk
         apply inv_of_touches hinv (touches_setPhase c s _)
         have hnone : lookup s.phase c = none := by
-          simp only [known, Bool.not_eq_true, Option.isSome_eq_false_iff, Option.isNone_iff_eq_none] at hk
-          exact hk
+          simp only [known, Bool.or_eq_true, not_or, Bool.not_eq_true, Option.isSome_eq_false_iff,
+            Option.isNone_iff_eq_none] at hk
+          exact hk.2
         have := hinv c
         unfold Stage at this ⊢
         rw [hnone] at this
@@ -337,6 +338,7 @@ theorem step_inv (cfg : Cfg) (s : State) (op : Op) (hinv : Inv cfg s) : Inv cfg 
         rw [evsOf_emit_same hab, hev]
         exact Final.droppedBackup rq n k out k2 hn hnx
       · exact hinv
+  | dropsvc => exact hinv
 
 theorem inv_init (cfg : Cfg) : Inv cfg init := by
   intro c; simp [Stage, init, lookup, evsOf]
